@@ -190,13 +190,18 @@ func (m *Manager) ClearPeer(peerID core.PeerID) {
 	delete(m.requestsByPeer, peerID)
 
 	for i, rs := range m.requests {
-		for j, r := range rs {
-			if r.PeerID == peerID {
-				// Eject request.
-				rs[j] = rs[len(rs)-1]
-				m.requests[i] = rs[:len(rs)-1]
-				break
+		// Eject every request of the peer: a piece re-reserved for the same peer
+		// after a failed request has more than one.
+		kept := rs[:0]
+		for _, r := range rs {
+			if r.PeerID != peerID {
+				kept = append(kept, r)
 			}
+		}
+		if len(kept) == 0 {
+			delete(m.requests, i)
+		} else {
+			m.requests[i] = kept
 		}
 	}
 }
